@@ -279,6 +279,47 @@ def run(ctx) -> None:
     check_z3(ctx)
     n = check_heuristics(ctx, 'Z4', only_attrs={'injwelldiam', 'prodwelldiam', 'nonverticalwellborediameter'})
     ctx.floor('Z4', n, 4, 'diameter heuristic sites')
+    ctx.rule('Z5', 'a supplied value equal to its default counts as provided (C07 V9): the split injection-reservoir model is gated on overpressure_percentage.Provided')
+    ctx.rule('Z6', 'the pumping-power profile of the report prints production, injection and total at the same time index and stride (C09 W4)')
+    ctx.rule('Z7', 'thermal-storage wellbores: the signed flow profile enters pressure drops and pumping power only through abs() or an even power')
+    from gxstat.runner import Renamed
+    from rules.c07 import check_reader_arm
+    rp = ctx.repo.module('geophires_x/Parameter.py').functions.get('ReadParameter')
+    ctx.require(rp is not None, 'Parameter.ReadParameter not found')
+    n0 = len(ctx.obligations)
+    check_reader_arm(Renamed(ctx, {'V9': 'Z5'}), rp, 'floatParameter', 'float')
+    ctx.floor('Z5', len(ctx.obligations) - n0, 2, 'reader obligations')
+    from gxstat.report import writer_templates
+    from rules.c09 import check_profiles
+    n0 = len(ctx.obligations)
+    check_profiles(Renamed(ctx, {'W4': 'Z6'}, key_filter=lambda k: 'POWER REQUIRED' in k or 'PUMP' in k.upper()), writer_templates(ctx.repo, only=['Outputs']))
+    ctx.floor('Z6', len(ctx.obligations) - n0, 2, 'pumping-power profile obligations')
+    if ctx.repo.has_module('geophires_x/SUTRAWellBores.py'):
+        sw = ctx.repo.method('SUTRAWellBores', 'Calculate', 'geophires_x/SUTRAWellBores.py')
+        signed = ('prodwellflowrates', 'injwellflowrates')
+        n7 = 0
+        for st in ast.walk(sw.node):
+            if not isinstance(st, ast.Assign):
+                continue
+            tgt = norm(st.targets[0])
+            if not (tgt.startswith(('v', 'Re', 'DP', 'self.DP', 'self.PumpingPower'))):
+                continue
+            for x in ast.walk(st.value):
+                if isinstance(x, ast.Name) and x.id in signed:
+                    n7 += 1
+                    p = parent(x)
+                    ok = False
+                    while p is not None and p is not st:
+                        if isinstance(p, ast.Call) and (dotted_name(p.func) or '') in ('abs', 'np.abs', 'np.absolute', 'math.fabs', 'np.fabs'):
+                            ok = True
+                        if isinstance(p, ast.BinOp) and isinstance(p.op, ast.Pow) and isinstance(p.right, ast.Constant) and \
+                                isinstance(p.right.value, int) and p.right.value % 2 == 0:
+                            ok = True
+                        p = parent(p)
+                    ctx.check(ok, 'Z7', f'SUTRAWellBores.Calculate/{tgt}/{x.id}-unsigned', f'{sw.module.rel}:{st.lineno}',
+                              f'`{norm(st)[:100]}` uses the signed flow profile {x.id} without abs(): while the storage is charged the flow is '
+                              f'negative, the pressure drop and with it the pumping power become negative', fact='abs() / even power')
+        ctx.floor('Z7', n7, 5, 'uses of the signed flow profiles in pressure-drop and power expressions')
     ctx.undecided('monotonicity of the Colebrook friction loss in the diameter (numeric)', 'SBT/AGS hydraulic models',
                   'values of water properties')
     ctx.assume('overpressure percentage >= 100 and depletion rate > 0 (declared ranges) give overpressure >= 0 and a positive step count')
